@@ -738,6 +738,11 @@ func cmdMin(args []string) {
 		func(q *Plan) { q.Sched = nil },
 		func(q *Plan) { q.PoolDec = nil },
 		func(q *Plan) { q.PreSched = nil },
+		func(q *Plan) { q.ClockJumps = nil },
+		func(q *Plan) { q.TickNs = 0 },
+		func(q *Plan) { q.NumCPU = 0 },
+		func(q *Plan) { q.Slab = false },
+		func(q *Plan) { q.LoudObs = false },
 	} {
 		q := clonePlan(last)
 		f(q)
